@@ -1,7 +1,8 @@
 #!/venv/bin/python
 # -*- coding: utf-8 -*-
-"""Run the quick check(s) named in each seeded/<id>/meta.json against /repo with that seeded change applied (and undone
-straight afterwards); writes seeded/RESULTS.json.  /repo must be clean.  Usage: tools/seeded_matrix.py [id ...]"""
+"""Run the quick check(s) named in each seeded/<id>/meta.json against a scratch worktree of /repo's HEAD with that seeded
+change applied (and undone straight afterwards); writes seeded/RESULTS.json after every entry.  /repo itself is not touched.
+Usage: tools/seeded_matrix.py [id ...]"""
 import json
 import os
 import subprocess
@@ -18,29 +19,44 @@ def main():
     ids = sys.argv[1:] or sorted(d for d in os.listdir(os.path.join(HERE, 'seeded')) if os.path.isdir(os.path.join(HERE, 'seeded', d)))
     path = os.path.join(HERE, 'seeded', 'RESULTS.json')
     results = json.load(open(path)) if os.path.exists(path) else {}
+    tree = '/tmp/seeded-matrix-worktree'
+    sh(f'git -C /repo worktree remove --force {tree}')
+    added = sh(f'git -C /repo worktree add --detach {tree} HEAD')
+    if added.returncode:
+        print('cannot create the scratch worktree', added.stderr)
+        return 3
+    head = sh('git -C /repo rev-parse --short HEAD').stdout.strip()
+    try:
+        return run_all(ids, results, path, tree, head)
+    finally:
+        sh(f'git -C /repo worktree remove --force {tree}')
+
+
+def run_all(ids, results, path, tree, head):
     for ident in ids:
         directory = os.path.join(HERE, 'seeded', ident)
         meta = json.load(open(os.path.join(directory, 'meta.json')))
-        if sh('git -C /repo status --porcelain').stdout.strip():
-            print('/repo is not clean')
-            return 3
-        applied = sh(f'git -C /repo apply {directory}/patch.diff')
+        if meta.get('neutralised_by'):
+            print(ident, 'neutralised:', meta['neutralised_by'][:60], flush=True)
+            results[ident] = {prop: {'exit': None, 'neutralised': True, 'head': head} for prop in meta['checks']}
+            continue
+        applied = sh(f'git -C {tree} apply {directory}/patch.diff')
         if applied.returncode:
             print(ident, 'PATCH DOES NOT APPLY', applied.stderr)
             continue
         try:
             entry = {}
             for prop in meta['checks']:
-                run = sh(f'cd {HERE} && VERIF_MAX_REPORTS=3 ./check {prop} --tier quick', timeout=900)
+                run = sh(f'cd {HERE} && VERIF_REPO={tree} VERIF_MAX_REPORTS=3 VERIF_EVIDENCE=0 ./check {prop} --tier quick', timeout=900)
                 lines = [l for l in run.stdout.splitlines() if l.startswith('VIOLATION') or l.strip().startswith('rule=')]
                 rules = sorted({l.strip().split(' occurrences')[0] for l in lines if l.strip().startswith('rule=')})
-                entry[prop] = {'exit': run.returncode, 'violations': sum(l.startswith('VIOLATION') for l in lines), 'rules': rules}
+                entry[prop] = {'exit': run.returncode, 'violations': sum(l.startswith('VIOLATION') for l in lines), 'rules': rules,
+                               'head': head}
                 print(ident, prop, 'exit', run.returncode, rules, flush=True)
             results[ident] = entry
         finally:
-            sh('git -C /repo checkout -- .')
-            sh(f'git -C {HERE} checkout -- evidence')
-    json.dump(results, open(path, 'w'), indent=1, sort_keys=True)
+            sh(f'git -C {tree} checkout -- .')
+            json.dump(results, open(path, 'w'), indent=1, sort_keys=True)
     return 0
 
 
